@@ -423,6 +423,12 @@ def run_catalogue(shard, res, rng):
     for src, tgt in [((2, 3), (3, 2)), ((2, 3), (6,)), ((6,), (2, 3)), ((2,), (2, 1)), ((), (1,)), ((1,), ()), ((2, 3, 2), (4, 3)), ((2, 2), (4,))]:
         cases.append(("un", "reshape", (("shape", tgt),), [("real", src)]))
         cases.append(("un", "reshape", (("shape", tgt),), [(3, src)]))
+    # astype
+    for dt in ("float32", "float64", "bool", "int64", "int32"):
+        for shape in [(), (3,), (2, 3)]:
+            cases.append(("un", "astype", (("dtype", dt),), [("real", shape)]))
+            cases.append(("un", "astype", (("dtype", dt),), [(3, shape)]))
+            cases.append(("un", "astype", (("dtype", dt),), [(2, shape)]))
     # finitary stack / cat / einsum
     for shape in [(), (2,), (2, 3)]:
         for dim in range(-len(shape) - 1, len(shape) + 1):
@@ -454,6 +460,8 @@ def run_catalogue_case(kind, name, params, doms, res, rng):
             op = getattr(ops, name.capitalize() + "Op")(p["axis"], p["keepdims"]) if False else type(getattr(ops, name))(p["axis"], p["keepdims"])
         elif name in ("std", "var"):
             op = type(getattr(ops, name))(p["axis"], 0, p["keepdims"])
+        elif name == "astype":
+            op = ops.AstypeOp(p["dtype"])
         elif name == "getitem":
             op = ops.GetitemOp(p["offset"])
         elif name == "getslice":
